@@ -1265,7 +1265,9 @@ def index_lower_instances(cls_methods, fn):
                     out.append((e, ast.unparse(e), False, 'no test excluding %s < %d dominates the read' % (x, c)))
             elif isinstance(e.slice, ast.Name) and e.slice.id in params:
                 p = e.slice.id
-                if not _guarded(known, p, 0) and not any(_excludes_below(cond, neg, p, 0) for cond, neg in known):
+                if _guarded(known, p, 0):
+                    out.append((e, ast.unparse(e), True, 'the function itself excludes %s < 0 before the read' % p))
+                else:
                     param_reads.setdefault(p, e)
         if isinstance(e, ast.Name) and isinstance(e.ctx, ast.Load):
             uses.append((e, known))
@@ -1347,7 +1349,7 @@ def _end_anchored(n):
 def rule_index_lower_and_prefix(chk):
     ev = Ev()
     idx = ev.idx
-    chk.rule('C13.index-lower', 'a subscript T[x - c] is only read (or its value only used) where x >= c is established', floor=3, control=True)
+    chk.rule('C13.index-lower', 'a subscript T[x - c] is only read (or its value only used) where x >= c is established', floor=2, control=True)
     chk.rule('C13.prefix-slice', 'the prefix searched with end-anchored patterns stops before the separately tested separator character',
              floor=2, control=True)
     m = idx.mod(SEQ_EXTRACTORS)
